@@ -337,9 +337,17 @@ Definition fmt_notes (e : ev) : list N :=
          end
   end.
 
+(* UnboundedSPSCQueue::empty() = the consumer's node is empty AND it has no successor: a drained node whose
+   successor has not been switched to yet answers "not empty" even when the successor holds nothing (a node left
+   unused after shrink()); the backend then believes something is pending until its next read hops over *)
+Definition u_hint (x : thr) : bool :=
+  match uqs x with
+  | Some u => match nnext (getn u (cons u)) with None => true | Some _ => false end
+  | None => true
+  end.
 (* consumer-side empty() on a thread's queue (reloads the cached writer position) *)
 Definition q_empty (x : thr) : thr * bool :=
-  let (q1, e) := empty (q x) in (sh u_empty (set_thr_q x q1 (qev x)), e).
+  let (q1, e) := empty (q x) in (sh u_empty (set_thr_q x q1 (qev x)), e && u_hint x).
 
 (* _read_and_decode_frontend_queue for one thread context (the do..while loop).
    Returns the new thread record, bytes read, notifier observations, and whether a non-std exception
